@@ -305,6 +305,15 @@ func (g *schemaGenerator) generateDeclaredType(t *schemas.Type, scope nameScope)
 		if t.GetSubSchemaType() == schemas.SubSchemaTypeAnyOf {
 			validators = append(validators, &anyOfValidator{decl.Name, t.GetSubSchemasCount()})
 
+			for _, f := range tt.Fields {
+				if f.Name == additionalProperties {
+					// The unmarshaler collects the additional properties, as for any other struct.
+					g.output.file.Package.AddImport("reflect", "")
+					g.output.file.Package.AddImport("strings", "")
+					g.output.file.Package.AddImport("github.com/go-viper/mapstructure/v2", "")
+				}
+			}
+
 			g.generateUnmarshaler(decl, validators)
 
 			return &codegen.NamedType{Decl: &decl}, nil
